@@ -35,7 +35,7 @@ COMPONENTS = {"real": ["Model.__init__/update/finish", "ladim.main.main (sampled
 ASSUMPTIONS = ["the shims override only methods the base classes have and delegate unchanged"]
 TIERS = {"quick": dict(runs=500, budget_s=50, shrink=100),
          "thorough": dict(runs=50000, budget_s=900, shrink=200)}
-REQUIRED_PROBES = ["cold", "warm", "via_main", "plugin_relative_path", "plugin_module_name", "plugin_same_basename_two_dirs", "plugin_dotted_stem", "grid_plugin_with_close", "plain_run_before_and_after", "ibm_kill_checked",
+REQUIRED_PROBES = ["cold", "warm", "via_main", "plugin_relative_path", "plugin_module_name", "plugin_same_basename_two_dirs", "plugin_dotted_stem", "grid_plugin_with_close", "plain_run_before_and_after", "ibm_section_with_module_only", "ibm_kill_checked",
                    "late_release", "scalar_in_record"]
 
 PROFILE = gen.profile(
@@ -69,6 +69,7 @@ def generate(seed: int, tier: str, idx: int) -> dict:
         plan["main"] = False
         gen.make_restartable(sc)
     plan["grid_close"] = s.chance(0.3)      # the user's grid plug-in has a close() of its own
+    plan["ibm_no_options"] = s.chance(0.3)
     # the same plain set-up (no plug-in anywhere, no IBM section) run before and after the run with the plug-ins
     plan["isolation"] = plan["start"] == "cold" and s.chance(0.3)
     # the other plug-in points (grid, forcing, output, state, time, release, tracker) by path or by dotted module name
@@ -105,6 +106,7 @@ def _install_plugin(d: Path, how: str, twin: bool = False):
         (d / "a").mkdir(exist_ok=True)
         (d / "b").mkdir(exist_ok=True)
         (d / "a" / "plug.py").write_text(marked)
+        written = [d / "a" / "plug.py"]
         shim = (world.PLUGIN_DIR / "shim.py").read_text()
         (d / "b" / "plug.py").write_text(shim + f"\n\n_orig_init = Forcing.__init__\n\n\ndef _init(self, modules, *a, **k):\n"
                                          f"    _orig_init(self, modules, *a, **k)\n    r = _rec()\n    if r is not None:\n"
@@ -115,27 +117,33 @@ def _install_plugin(d: Path, how: str, twin: bool = False):
             cfg["forcing"]["module"] = str(d / "b" / "plug")
             return cfg
 
+        edit_twin.files = written
         return edit_twin
     if how in ("dotted", "dotted_py"):
         # the plug-in file has a dot in its stem and an older version lies next to it
         (d / "plug").mkdir(exist_ok=True)
         (d / "plug" / "myibm.v2.py").write_text(marked)
+        written = [d / "plug" / "myibm.v2.py"]
         (d / "plug" / "myibm.py").write_text(marked.replace(f"file:{token}", "sibling"))
         name = str(d / "plug" / ("myibm.v2.py" if how == "dotted_py" else "myibm.v2"))
     elif how in ("rel", "rel_py"):
         _decoy()
         (d / "myibm.py").write_text(marked)
+        written = [d / "myibm.py"]
         name = "myibm.py" if how == "rel_py" else "myibm"
     elif how == "abs":
         (d / "absibm.py").write_text(marked)
+        written = [d / "absibm.py"]
         name = str(d / "absibm")
     else:
+        written = []
         name = "ladsim.plugins.script_ibm"
 
     def edit(cfg):
         cfg["ibm"]["module"] = name
         return cfg
 
+    edit.files = written
     return edit
 
 
@@ -257,6 +265,15 @@ def execute(sc) -> Result:
 
         def edit(cfg):
             cfg = edit0(cfg) or cfg
+            if pl.get("ibm_no_options") and edit0.files and set(cfg["ibm"]) == {"module", "script"}:
+                # the user's IBM takes no options: its section holds the module key only (examples/streak/age_ibm.yaml);
+                # the script is written into the plug-in file itself
+                script = cfg["ibm"].pop("script")
+                for f in edit0.files:
+                    src = f.read_text()
+                    assert 'script="{}"' in src
+                    f.write_text(src.replace('script="{}"', "script=" + repr(script)))
+                res.probes["ibm_section_with_module_only"] += 1
             if pl.get("grid_close"):
                 cfg["grid"]["module"] = str(d / "gridplug.py")
             for sec in pl.get("by_name", []):
